@@ -2,6 +2,7 @@
 # Re-runs every confirmed seeded change in /verif/seeded against the quick check of its property and
 # records the outcome in seeded/RESULTS.md (applies each patch to /repo and reverts it afterwards).
 cd /verif
+export VERIF_NO_EVIDENCE=1
 out=seeded/RESULTS.md
 echo "# Seeded changes vs quick checks ($(date -u +%FT%TZ), /repo $(git -C /repo log --format=%h -1), /verif $(git log --format=%h -1))" > $out
 echo "" >> $out
